@@ -48,8 +48,8 @@ type Scn struct {
 }
 
 var cipherSets = [][]uint16{nil,
-	{tls.TLS_ECDHE_RSA_WITH_AES_128_GCM_SHA256, tls.TLS_ECDHE_ECDSA_WITH_CHACHA20_POLY1305},
-	{tls.TLS_RSA_WITH_AES_256_CBC_SHA, tls.TLS_ECDHE_RSA_WITH_AES_256_GCM_SHA384, tls.TLS_ECDHE_ECDSA_WITH_AES_128_GCM_SHA256}}
+																	{tls.TLS_ECDHE_RSA_WITH_AES_128_GCM_SHA256, tls.TLS_ECDHE_ECDSA_WITH_CHACHA20_POLY1305},
+																	{tls.TLS_RSA_WITH_AES_256_CBC_SHA, tls.TLS_ECDHE_RSA_WITH_AES_256_GCM_SHA384, tls.TLS_ECDHE_ECDSA_WITH_AES_128_GCM_SHA256}}
 var curveSets = [][]tls.CurveID{nil, {tls.CurveP256}, {tls.X25519, tls.CurveP384}, {tls.X25519, tls.CurveID(0x3a3a), tls.CurveP384}} // the last one carries a reserved GREASE value (RFC 8701), as browsers send
 
 func (c ClientCfg) tls() *tls.Config {
@@ -233,7 +233,13 @@ func sniMatch(pats []string, name string) bool {
 	return false
 }
 
+var plain *mrun.Loaded // the tls matcher without sub-matchers
+
 func loadMatchers() {
+	var err error
+	if plain, err = mrun.Load(mrun.Spec{Module: "tls", Config: json.RawMessage(`{}`)}); err != nil {
+		panic(err)
+	}
 	for _, c := range matcherCfgs {
 		l, err := mrun.Load(mrun.Spec{Module: "tls", Config: json.RawMessage(c)})
 		if err != nil {
@@ -319,13 +325,53 @@ func judge(record []byte, what string, fail func(sig, msg string)) (compared boo
 			fail("verdict-differs", fmt.Sprintf("%s: tls matcher %s says %s, the same sub-matchers on crypto/tls's view (sni %q alpn %v) say %s (record %x)", what, m.cfg, v, ref.ServerName, ref.SupportedProtos, want, record))
 		}
 		if v.V == "yes" || v.V == "no" {
-			repl := cx.Context.Value(layer4.ReplacerCtxKey).(*caddy.Replacer)
-			if sn, _ := repl.GetString("l4.tls.server_name"); sn != ref.ServerName {
-				fail("placeholder-differs", fmt.Sprintf("%s: {l4.tls.server_name}=%q, crypto/tls sees %q (record %x)", what, sn, ref.ServerName, record))
-			}
+			checkPlaceholders(cx, record, ref, what, fail)
+		}
+	}
+	// the same hello travelling inside a connection on which another hello was matched before
+	// (TLS in TLS: the terminating handler hands the inner stream on with the outer context)
+	for i, e := range earlier() {
+		outer, _ := mrun.Conn(e, false)
+		if v := plain.Eval(outer); v.V != "yes" {
+			fail("verdict-differs", fmt.Sprintf("standing hello %d is not matched by the unfiltered tls matcher: %s", i, v))
+			continue
+		}
+		inner := mrun.ConnOn(outer, record)
+		if v := plain.Eval(inner); v.V == "yes" {
+			checkPlaceholders(inner, record, ref, fmt.Sprintf("%s, matched inside a connection whose outer hello (standing hello %d) was matched first", what, i), fail)
+		} else {
+			fail("verdict-differs", fmt.Sprintf("%s: the unfiltered tls matcher says %s inside a wrapped connection (record %x)", what, v, record))
 		}
 	}
 	return true
+}
+
+// checkPlaceholders: {l4.tls.server_name} is the server name crypto/tls reports, {l4.tls.version}
+// the client_version field of the hello (bytes 9..10 of the record), for the hello matched last.
+func checkPlaceholders(cx *layer4.Connection, record []byte, ref *tls.ClientHelloInfo, what string, fail func(sig, msg string)) {
+	repl := cx.Context.Value(layer4.ReplacerCtxKey).(*caddy.Replacer)
+	if sn, _ := repl.GetString("l4.tls.server_name"); sn != ref.ServerName {
+		fail("placeholder-differs", fmt.Sprintf("%s: {l4.tls.server_name}=%q, crypto/tls sees %q (record %x)", what, sn, ref.ServerName, record))
+	}
+	if len(record) >= 11 {
+		want := fmt.Sprint(uint16(record[9])<<8 | uint16(record[10]))
+		if v, _ := repl.Get("l4.tls.version"); fmt.Sprint(v) != want {
+			fail("placeholder-differs", fmt.Sprintf("%s: {l4.tls.version}=%v, the hello's client_version is %s (record %x)", what, v, want, record))
+		}
+	}
+}
+
+var standing [][]byte
+
+// earlier returns two standing hellos that differ from each other in server name and version.
+func earlier() [][]byte {
+	if standing == nil {
+		standing = [][]byte{
+			mrun.ClientHello(&tls.Config{ServerName: "outer.example.com", MinVersion: tls.VersionTLS12, MaxVersion: tls.VersionTLS13}),
+			mrun.ClientHello(&tls.Config{InsecureSkipVerify: true, MinVersion: tls.VersionTLS10, MaxVersion: tls.VersionTLS11}),
+		}
+	}
+	return standing
 }
 
 func prefixesAndTypes(record []byte, tier string, fail func(sig, msg string)) int {
@@ -413,7 +459,7 @@ func main() {
 			} else {
 				rep.Fail(sc, "reference-rejects-own-hello", "crypto/tls's server does not accept the hello crypto/tls's client emitted", nil)
 			}
-			rep.Executions += int64(len(matchers)) + 1
+			rep.Executions += int64(len(matchers)) + 3
 			rep.States++
 			k := prefixesAndTypes(record, tier, fail(record))
 			rep.Executions += int64(k)
@@ -425,7 +471,7 @@ func main() {
 						if judge(m, fmt.Sprintf("cipher suite %#04x appended to the hello", cs), fail(m)) {
 							rep.Nontrivial++
 						}
-						rep.Executions += int64(len(matchers)) + 1
+						rep.Executions += int64(len(matchers)) + 3
 						rep.States++
 					}
 				}
@@ -442,7 +488,7 @@ func main() {
 						if judge(m, fmt.Sprintf("byte %d of the hello set to %#x", i, d), fail(m)) {
 							rep.Nontrivial++
 						}
-						rep.Executions += int64(len(matchers)) + 1
+						rep.Executions += int64(len(matchers)) + 3
 						rep.States++
 					}
 				}
